@@ -2,6 +2,7 @@ package rules
 
 import (
 	"fmt"
+	"go/types"
 	"sort"
 	"sync"
 
@@ -89,10 +90,16 @@ func (s *Stats) Merge(o *Stats) {
 	}
 }
 
-// BatchCase is one cell of the global case split on immutable configuration.
+// BatchCase is one cell of the global case split on immutable inputs: the batch
+// configuration, the dynamic type of the node handed to Run and the dynamic type of
+// what its prep returned. Every dimension is an exhaustive partition of the inputs, so
+// the union of the cells covers every run; a cell only prunes branches its assumption
+// decides (a test the assumption does not decide is still explored both ways).
 type BatchCase struct {
 	Stop bool // error handling == "stop"
 	Conc bool // concurrency > 0
+	Node int  // 0: *BatchNode, 1: *BatchNodeBuilder, 2: any other node type
+	Prep int  // -1: not split, 0: []Result, 1: []any, 2: any other type
 }
 
 func (b BatchCase) String() string {
@@ -103,12 +110,24 @@ func (b BatchCase) String() string {
 	if b.Conc {
 		c = "concurrent"
 	}
-	return m + "/" + c
+	return m + "/" + c + "/" + []string{"*BatchNode", "*BatchNodeBuilder", "other node"}[b.Node] + "/" + []string{"any prep", "[]Result", "[]any", "other prep"}[b.Prep+1]
 }
 
 // AllBatchCases enumerates the split.
 func AllBatchCases() []BatchCase {
-	return []BatchCase{{false, false}, {false, true}, {true, false}, {true, true}}
+	var out []BatchCase
+	for _, cfg := range [][2]bool{{false, false}, {false, true}, {true, false}, {true, true}} {
+		for node := 0; node < 3; node++ {
+			if node == 2 {
+				out = append(out, BatchCase{cfg[0], cfg[1], node, -1})
+				continue
+			}
+			for prep := 0; prep < 3; prep++ {
+				out = append(out, BatchCase{cfg[0], cfg[1], node, prep})
+			}
+		}
+	}
+	return out
 }
 
 // budgetLowerBound implements assumption A4 (retry budget N >= 1).
@@ -125,18 +144,49 @@ func budgetLowerBound(e **eng.Engine) func(t *eng.Term) (int64, bool) {
 }
 
 // caseAssumer applies the case split right after the configuration is read.
-func caseAssumer(bc BatchCase) func(c *eng.Ctx, ev *eng.Event) bool {
+func caseAssumer(r *Roles, bc BatchCase) func(c *eng.Ctx, ev *eng.Event) bool {
 	return func(c *eng.Ctx, ev *eng.Event) bool {
 		if ev.Kind != "call" || len(ev.Results) == 0 {
 			return true
 		}
 		switch ev.Class {
+		case "cb:Prep":
+			if bc.Prep < 0 || r.Result == nil {
+				return true
+			}
+			ok := c.E.Assume(c.St.Facts(), eng.TAOk(ev.Results[0], types.NewSlice(r.Result)), bc.Prep == 0)
+			if ok && bc.Prep != 0 {
+				ok = c.E.Assume(c.St.Facts(), eng.TAOk(ev.Results[0], types.NewSlice(types.Universe.Lookup("any").Type())), bc.Prep == 1)
+			}
+			return ok
 		case "cfg:GetBatchErrorHandling":
 			return c.E.Assume(c.St.Facts(), eng.Bin("==", ev.Results[0], eng.ConstString("stop")), bc.Stop)
 		case "cfg:GetBatchConcurrency":
 			return c.E.Assume(c.St.Facts(), eng.Bin("<", eng.ConstInt(0), ev.Results[0]), bc.Conc)
 		}
 		return true
+	}
+}
+
+// nodeKindAssumer fixes the dynamic type of Run's node parameter for the cell.
+func nodeKindAssumer(r *Roles, bc BatchCase) func(e *eng.Engine, f *eng.Facts) {
+	return func(e *eng.Engine, f *eng.Facts) {
+		if r.FnRun == nil || len(r.FnRun.Params) < 2 || r.BatchNode == nil || r.BatchNodeBuilder == nil {
+			return
+		}
+		var node *eng.Term
+		for i, prm := range r.FnRun.Params {
+			if types.Identical(prm.Type(), r.Node) {
+				node = eng.Param(i, prm.Name())
+			}
+		}
+		if node == nil {
+			return
+		}
+		e.Assume(f, eng.TAOk(node, types.NewPointer(r.BatchNode)), bc.Node == 0)
+		if bc.Node != 0 {
+			e.Assume(f, eng.TAOk(node, types.NewPointer(r.BatchNodeBuilder)), bc.Node == 1)
+		}
 	}
 }
 
@@ -170,10 +220,14 @@ func AnalyzeRun(p *load.Program, r *Roles, depth int) *RunResult {
 	cases := AllBatchCases()
 	outs := make([]out, len(cases))
 	var wg sync.WaitGroup
+	var shared int64
+	sem := make(chan struct{}, 16)
 	for i, bc := range cases {
 		wg.Add(1)
 		go func(i int, bc BatchCase) {
 			defer wg.Done()
+			sem <- struct{}{}
+			defer func() { <-sem }()
 			col := NewCol()
 			var e *eng.Engine
 			life := NewLifeMon(r, col)
@@ -182,10 +236,12 @@ func AnalyzeRun(p *load.Program, r *Roles, depth int) *RunResult {
 				Prog: p.Prog, Pkg: p.SSA, Fset: p.Fset, Root: r.FnRun, MaxDepth: depth,
 				Classify:         r.Classifier(Mode{SummarisePool: true, SummariseCfg: true, SummariseToSlice: true}),
 				IntLowerBound:    budgetLowerBound(&e),
-				AfterEvent:       caseAssumer(bc),
+				AfterEvent:       caseAssumer(r, bc),
+				InitFacts:        nodeKindAssumer(r, bc),
 				Monitors:         []eng.Monitor{life, batch},
 				DropReturnStates: true,
-				DebugFn:          DebugFn, DebugBlock: DebugBlock,
+				MaxStates:        100000, SharedStates: &shared, SharedMax: 1200000,
+				DebugFn: DebugFn, DebugBlock: DebugBlock,
 			}
 			e = eng.New(cfg)
 			e.Run()
